@@ -172,6 +172,16 @@ func (x *XP) Code() string {
 	return "stale: the method bound before RegisterField"
 }
 
+// Stranger is a Go type no GraphQL type is bound to: an application hands a value of it out where an A is declared (a
+// second Go type behind one GraphQL type).  It has some of A's methods.
+type Stranger struct{ ID string }
+
+func (s *Stranger) Name() string      { return "stranger" }
+func (s *Stranger) N() int            { return 0 }
+func (s *Stranger) NodeID() string    { return s.ID }
+func (s *Stranger) Self() *Stranger   { return s }
+func (s *Stranger) Kids() []*Stranger { return []*Stranger{s} }
+
 // Marker, when set, is called by XP.Code: a request that selects code right before another field of P says so just
 // before it gets to that field.
 var Marker func()
